@@ -3,6 +3,8 @@ package main
 import (
 	"fmt"
 	"strings"
+
+	"github.com/Ptt-official-app/go-pttbbs/ptttype"
 )
 
 func clampOK(v int64) bool { return v >= minI && v <= maxI }
@@ -153,6 +155,49 @@ func generate() {
 		do("syncquery 9")
 	}
 
+	// ---- account expiry: the clean-up sweep run from a registration on a full table with a stale .fresh
+	//      (tryCleanUser -> checkAndExpireAccount -> killUser) is a whole-record writer; every slot is judged after it
+	{
+		xempt := int64(ptttype.PERM_XEMPT)
+		loginok := int64(ptttype.PERM_LOGINOK)
+		for round := 0; round < 2; round++ {
+			seed++
+			do(resetLine(nSlot, 0, seed, baseBalances(), nil))
+			// every account keeps logging in / is exempt, except the ones aged below
+			for u := int64(1); u <= MAX; u++ {
+				if round == 0 {
+					do(fmt.Sprintf("age %d 1 %d", u, loginok))
+				} else {
+					do(fmt.Sprintf("age %d 900 %d", u, xempt|loginok))
+				}
+			}
+			do("de 7 500") // a credited account that then expires
+			do("age 7 400 0")
+			do(fmt.Sprintf("age %d 400 %d", MAX, loginok)) // registered, long gone, on the last slot
+			do("age 9 100 0")                               // expired but inside the grace range: stays
+			do(fmt.Sprintf("age 8 4000 %d", xempt))         // exempt: stays
+			do("age 1 400 0")                               // slot 1 is never swept
+			do("set 11 0")
+			do("age 11 400 0") // an expired account with balance 0
+			do(fmt.Sprintf("expire clean%d 5", round))
+			for _, u := range []int64{7, MAX, 9, 8, 1, 11} {
+				do(fmt.Sprintf("get %d", u))
+			}
+			do("de 7 1")
+			do("loaduhash 0") // a restart: the removed account's slot must still show what SHM showed
+			do("get 7")
+			do(fmt.Sprintf("get %d", MAX))
+			do(fmt.Sprintf("expire again%d 5", round)) // nothing left to remove
+		}
+		// a free slot exists: the registration is served without any clean-up
+		seed++
+		do(resetLine(nSlot, 0, seed, baseBalances(), nil) + " free=4")
+		do("age 7 400 0")
+		do("expire nocln 6")
+		do("get 4")
+		do("get 7")
+	}
+
 	// ---- registrations (ptt.SetupNewUser): the new account must start with ITS balance, whatever the slot held ------
 	nid := 0
 	newID := func() string { nid++; return fmt.Sprintf("nu%d", nid) }
@@ -289,7 +334,11 @@ func generate() {
 		loadsHere := r.Intn(5) == 0
 		for k := 0; k < n; k++ {
 			if loadsHere && r.Intn(6) == 0 {
-				switch r.Intn(4) {
+				switch r.Intn(6) {
+				case 4:
+					do(fmt.Sprintf("age %d %d %d", 1+r.Intn(nSlot), []int{1, 100, 400, 4000}[r.Intn(4)], []int64{0, int64(ptttype.PERM_LOGINOK), int64(ptttype.PERM_XEMPT)}[r.Intn(3)]))
+				case 5:
+					do(fmt.Sprintf("expire rx%dx%d %d", h, k, r.Intn(1000)))
 				case 0:
 					do("loaduhash 0")
 				case 1:
@@ -443,6 +492,8 @@ func generate() {
 		"reset 50 0 1 " + csv(base) + " " + csv(base) + " free=", "reset 50 0 1 " + csv(base) + " " + csv(base) + " free=0",
 		"reset 50 0 1 " + csv(base) + " " + csv(base) + " free=3,3", "reset 50 0 1 " + csv(base) + " " + csv(base) + " fre=3",
 		"resetconc 4 10", "resetconc x 10 1",
+		"age", "age 1 2", "age 0 1 0", "age 1 x 0", "age 1 1 4294967296", "expire", "expire 1a 5", "expire ab", "expire ab 5 1 0",
+		"expire ab 5 1,2 0 zz", "expire ab 5 1 0 00",
 		"config", "config 2", "config 1 1", "loaduhash", "loaduhash 2", "loaduhash 0 1", "pokerec 1 = ", "pokerec 0 = 5",
 		"pokerec 51 = 5", "pokerec 1 1a 5", "pokerec 1 = x", "pokerec 1 ab 2147483648",
 		"load", "load 1 2", "syncquery a", "syncquery", "permupdate 1 2", "permupdate 1 2 4294967296", "permupdate 1 2 -1",
